@@ -183,7 +183,7 @@ func verifC06History() {
 					r = append([]byte{}, vHRRRandom...)
 					d := vByte()
 					vAssume(d != 0)
-					r[[]int{0, 31, 13, 7, 24}[vInt(0, 2+2*vTier())]] ^= d // first, last, inner positions
+					r[[]int{0, 31, 13, 7, 24}[vInt(0, 1+3*vTier())]] ^= d // first, last, inner positions
 				} else {
 					vAssume(r[0] != 0xCF)
 				}
